@@ -501,3 +501,42 @@ Proof.
   - rewrite rf_bytes_eqb_neq; [reflexivity|].
     intros ->. apply Hn. split; [symmetry; apply rf_bytes_eqb_eq; assumption|reflexivity].
 Qed.
+
+(* ------------------------------------------------------------ several edits in one invocation *)
+
+Theorem apply_edits_denote : forall es a a' t,
+  apply_edits es a = Some a' ->
+  denote a = Some t ->
+  denote a' = Some (apply_edits_tree es a t).
+Proof.
+  induction es as [|e r IH]; cbn [apply_edits apply_edits_tree]; intros a a' t H Ht.
+  - injection H as <-. assumption.
+  - destruct (ren_ok (go_renaming e a) a) eqn:Hok; [|discriminate].
+    apply (IH _ _ _ H). apply rename_denote; assumption.
+Qed.
+
+Theorem check_combo_sound es a b t :
+  check_combo es false a b = 0%N ->
+  denote a = Some t ->
+  denote b = Some (apply_edits_tree es a t).
+Proof.
+  unfold check_combo. intros H Ht.
+  destruct (apply_edits es a) as [a'|] eqn:Ea; [|discriminate].
+  destruct (ast_eqb a' b) eqn:E; [|discriminate].
+  apply ast_eqb_eq in E. subst b. apply (apply_edits_denote _ _ _ _ Ea Ht).
+Qed.
+
+Theorem check_combo_removal_sound es a b t :
+  check_combo es true a b = 0%N ->
+  denote a = Some t ->
+  exists a', apply_edits es a = Some a' /\
+    denote b = Some (rename_tree ren_none [] []
+                       (restrict_tree (diff_removed a' b) (apply_edits_tree es a t))) /\
+    unused_ok (diff_removed a' b) a' = true.
+Proof.
+  unfold check_combo. intros H Ht.
+  destruct (apply_edits es a) as [a'|] eqn:Ea; [|discriminate].
+  exists a'. split; [reflexivity|].
+  apply check_removal_sound; [assumption|].
+  apply (apply_edits_denote _ _ _ _ Ea Ht).
+Qed.
